@@ -97,6 +97,9 @@ async fn remote_peer(
     let mut msgs = 0usize;
     let mut blocks = 0usize;
     let mut unchoked_them = false;
+    let mut held: Option<(usize, usize, usize)> = None;
+    // 'holdleave <ms>': takes requests, never answers, leaves after <ms>
+    let leave_at = tokio::time::Instant::now() + if behaviour == "holdleave" { Duration::from_millis(arg as u64) } else { Duration::from_secs(100_000_000) };
     let mut tmp = vec![0u8; 1 << 16];
     loop {
         // parse what we have
@@ -157,7 +160,36 @@ async fn remote_peer(
                         shared.lock().unwrap().protocol_oddities += 1;
                         continue;
                     }
+                    if behaviour == "holdleave" {
+                        continue;
+                    }
                     blocks += 1;
+                    if behaviour == "swap" {
+                        // answer two pipelined requests of equal length with each other's bytes, the later one first
+                        match held.take() {
+                            None => {
+                                held = Some((i, b, l));
+                                continue;
+                            }
+                            Some((i0, b0, l0)) => {
+                                let (d_first, d_second) = if l0 == l && i0 == i {
+                                    (pieces[i0][b0..b0 + l0].to_vec(), pieces[i][b..b + l].to_vec())
+                                } else {
+                                    (pieces[i][b..b + l].to_vec(), pieces[i0][b0..b0 + l0].to_vec())
+                                };
+                                for (ii, bb, dd) in [(i, b, d_first), (i0, b0, d_second)] {
+                                    let mut p = (ii as u32).to_be_bytes().to_vec();
+                                    p.extend_from_slice(&(bb as u32).to_be_bytes());
+                                    p.extend_from_slice(&dd);
+                                    shared.lock().unwrap().blocks_served += 1;
+                                    if !write_chunked(&mut io, &frame(7, &p), &mut rng, slow).await {
+                                        return;
+                                    }
+                                }
+                                continue;
+                            }
+                        }
+                    }
                     let mut data = pieces[i][b..b + l].to_vec();
                     if behaviour == "corrupt" && arg > 0 && blocks % arg == 0 && !data.is_empty() {
                         data[0] ^= 0x55;
@@ -194,9 +226,21 @@ async fn remote_peer(
                 return;
             }
         }
-        match io.read(&mut tmp).await {
-            Ok(0) | Err(_) => return,
-            Ok(k) => buf.extend_from_slice(&tmp[..k]),
+        // a peer that follows the protocol sends a keep-alive when it has been quiet for a while
+        tokio::select! {
+            r = io.read(&mut tmp) => match r {
+                Ok(0) | Err(_) => return,
+                Ok(k) => buf.extend_from_slice(&tmp[..k]),
+            },
+            _ = tokio::time::sleep(Duration::from_secs(100)) => {
+                if io.write_all(&[0, 0, 0, 0]).await.is_err() {
+                    return;
+                }
+            }
+            _ = tokio::time::sleep_until(leave_at) => {
+                let _ = io.shutdown().await;
+                return;
+            }
         }
     }
 }
